@@ -128,6 +128,30 @@ class Dribble(io.RawIOBase):
         return self._b.tell()
 
 
+def expanded_size(node, _memo=None):
+    """Number of nodes of an AST counted the way ast.walk / ast.unparse visit it: a sub-tree referenced from k places
+    counts k times (the decompiler re-uses the node of a memoised value).  Linear in the number of distinct nodes."""
+    memo = {} if _memo is None else _memo
+    stack = [(node, False)]
+    while stack:
+        n, done = stack.pop()
+        i = id(n)
+        if i in memo and memo[i] is not None:
+            continue
+        kids = [c for c in ast.iter_child_nodes(n)]
+        if done:
+            memo[i] = 1 + sum(memo.get(id(c)) or 0 for c in kids)
+            continue
+        if i in memo:
+            continue        # being computed further down the stack (cannot happen in a DAG; guards against cycles)
+        memo[i] = None
+        stack.append((n, True))
+        for c in kids:
+            if memo.get(id(c)) is None and id(c) not in memo:
+                stack.append((c, False))
+    return memo.get(id(node)) or 0
+
+
 def corpus(ctx):
     tier = ctx.tier
     nval = {"quick": 150, "thorough": 1200}[tier]
@@ -245,6 +269,18 @@ def run_shard(ctx):
         qs_here = QUERIES if not order else ["check_safety", "unparse", "to_dict", "properties"]
         if big:
             qs_here = [q for q in qs_here if not q.startswith("trace")]
+        try:
+            expanded = expanded_size(p0.ast)
+        except RecursionError:
+            expanded = 0
+        except Exception:
+            expanded = 0
+        if expanded > 300000:
+            # a value shared from many places is decompiled to one node referenced from all of them; walking or printing
+            # the tree visits it once per reference (minutes per question for a few generated values): such inputs are
+            # left out - decided on the bytes alone, so every process leaves out the same ones
+            agg.count("inputs_skipped_tree_expands_over_300k_nodes")
+            continue
         t_base = time.time()
         base = {q: answer(f, analysis, tracing, f.Pickled.load(data), q) for q in qs_here}
         t_base = time.time() - t_base
